@@ -489,14 +489,37 @@ def r_flags(prog, tier):
                         'becomes' if got[k] else 'does not become', 'does' if want[k] else 'does not')
             except Unrecognised as ex:
                 why = 'head block condition not a boolean combination of the four flags: %s' % ex
+                # positive evidence: the head-block flag is read from another node than the child under consideration
+                slot_owner = unparse(d.ast.targets[0].value.value) if isinstance(d.ast.targets[0], ast.Subscript) else None
+                for x in ast.walk(d.value):
+                    if isinstance(x, ast.Subscript) and isinstance(x.value, ast.Attribute) and x.value.attr == 'data' \
+                            and unparse(x.slice) == hbkey and unparse(x.value.value) not in (cv, slot_owner) \
+                            and isinstance(x.value.value, ast.Name):
+                        other = x.value.value.id
+                        outer_vars = [unparse(cfg.nodes[l].ast.target) for l in cfg.nodes[d.node].loops if cfg.nodes[l].kind == 'iter']
+                        if other in outer_vars or other in f.params:
+                            ok = False
+                            why = 'the head-block flag is read from `%s` (the node being split, whose own flag is the default) ' \
+                                  'instead of from the child `%s`: every block that holds a piece of a split head child becomes a ' \
+                                  'head block' % (other, cv)
     obs.append(Ob('R-FLAGS/HEADBLOCK', f.fq, 'the head block is the block holding the head child (recursively its head block)',
                   ok, why, construct='headblock', line=f.node.lineno))
     # consumers read the flags the producer wrote
     f = prog.func('transform', 'raising')
     reads = set()
-    for n in walk_own(f.node):
-        if isinstance(n, ast.Subscript) and isinstance(n.value, ast.Attribute) and n.value.attr == 'data' and const_str(n.slice):
-            reads.add(const_str(n.slice))
+    todo, seen_f = [f], set()
+    while todo:
+        g_ = todo.pop()
+        if g_.fq in seen_f or len(seen_f) > 6:
+            continue
+        seen_f.add(g_.fq)
+        for n in walk_own(g_.node):
+            if isinstance(n, ast.Subscript) and isinstance(n.value, ast.Attribute) and n.value.attr == 'data' and const_str(n.slice):
+                reads.add(const_str(n.slice))
+            if isinstance(n, ast.Call):
+                c_ = prog.callee(n, g_)
+                if c_ is not None and c_[0] == 'transform' and c_[1].startswith('_') and c_[1] in prog.modules['transform'].funcs:
+                    todo.append(prog.modules['transform'].funcs[c_[1]])      # a private worker of raising reads for it
     ok = True if reads == {'split', hb or 'head_block'} else (
         False if not ({'split', hb or 'head_block'} <= reads) and not prog.opaque_calls(f, [f.params[0]]) else None)
     obs.append(Ob('R-FLAGS/CONSUMER', f.fq, 'raising reads exactly the flags boyd_split sets on every node', ok,
